@@ -70,7 +70,9 @@ impl Attribute<'_> for Fingerprint {
 
         let attr_value = value.read_u32::<NE>()?;
 
-        let data = &msg.buffer()[..attr.begin];
+        // the fingerprint covers the message up to (excluding) the FINGERPRINT
+        // attribute itself, i.e. without its 4 byte type/length header
+        let data = &msg.buffer()[..attr.begin - 4];
 
         let crc = Self::crc32(data) ^ 0x5354554e;
 
